@@ -577,7 +577,7 @@ Proof.
                    match r0 with
                    | None => (x0, None)
                    | Some _ => match db_id_of (cn_node x0) nm with
-                               | Some d => (log_append x0 (mkRec id 2 d 3), Some id)
+                               | Some d => (log_append x0 (mkRec id marker_snapshot d 3), Some id)
                                | None => (x0, None)
                                end
                    end) names acc))).
